@@ -138,6 +138,7 @@ type amsg struct {
 	// reply the handler must give (code + exact payload), when known
 	replyCode uint64
 	reply     []byte
+	replyFn   func() []byte // evaluated when the message is sent (the canonical chain can change under a hostile peer)
 }
 
 func mk(code uint64, name, expect string, payload []byte) amsg {
@@ -193,12 +194,12 @@ func (e *aquaEnv) goodStatus(version uint) amsg {
 	return mk(aquaStatus, "Status_valid", "accept", e.statusPayload(version, aquaNetworkID, e.chain.GetTd(h.Hash(), h.NumberU64()), h.Hash(), e.blocks[0].Hash()))
 }
 
-// probe: a header query for one known block; the reply is known exactly.
+// probe: a header query for the genesis block (the one block no peer can
+// replace); the reply is known exactly.
 func (e *aquaEnv) probe() amsg {
 	e.probeNo++
-	n := uint64(e.probeNo % len(e.blocks))
-	m := mk(aquaGetHeaders, "probe", "accept", refrlp.Encode(refrlp.L(refrlp.U(n), refrlp.U(1), refrlp.U(0), refrlp.U(0))))
-	m.replyCode, m.reply = aquaHeaders, enc([]*types.Header{e.blocks[n].Header()})
+	m := mk(aquaGetHeaders, "probe", "accept", refrlp.Encode(refrlp.L(refrlp.U(0), refrlp.U(1), refrlp.U(0), refrlp.U(0))))
+	m.replyCode, m.reply = aquaHeaders, enc([]*types.Header{e.blocks[0].Header()})
 	return m
 }
 
@@ -207,6 +208,7 @@ func (e *aquaEnv) probe() amsg {
 func (e *aquaEnv) headerQuery(r *fw.Rand) amsg {
 	top := uint64(len(e.blocks) - 1)
 	origin := uint64(r.Intn(len(e.blocks) + 3))
+	_ = top
 	amount := uint64(r.Range(0, 12))
 	skip := uint64(r.Range(0, 4))
 	reverse := r.Bool()
@@ -222,21 +224,38 @@ func (e *aquaEnv) headerQuery(r *fw.Rand) amsg {
 	if reverse {
 		rv = 1
 	}
-	var want []*types.Header
-	cur := int64(origin)
-	for uint64(len(want)) < amount && cur >= 0 && uint64(cur) <= top {
-		want = append(want, e.blocks[cur].Header())
-		if reverse {
-			cur -= int64(skip) + 1
-		} else {
-			cur += int64(skip) + 1
-		}
+	var originHash common.Hash
+	if byHash {
+		originHash = e.blocks[origin].Hash()
 	}
 	m := mk(aquaGetHeaders, "GetBlockHeaders_valid", "accept", refrlp.Encode(refrlp.L(originItem, refrlp.U(amount), refrlp.U(skip), refrlp.U(rv))))
-	if want == nil {
-		want = []*types.Header{}
+	m.replyCode = aquaHeaders
+	// The protocol-defined answer over the node's canonical chain as it is when
+	// the query is sent (read through the chain's own accessors, not through the
+	// handler): a hostile peer may have made the node adopt a sibling block.
+	m.replyFn = func() []byte {
+		top := e.chain.CurrentBlock().NumberU64()
+		if byHash {
+			if h := e.chain.GetHeaderByNumber(origin); h == nil || h.Hash() != originHash {
+				return nil // origin no longer canonical: traversal by hash is not modelled
+			}
+		}
+		want := []*types.Header{}
+		cur := int64(origin)
+		for uint64(len(want)) < amount && cur >= 0 && uint64(cur) <= top {
+			h := e.chain.GetHeaderByNumber(uint64(cur))
+			if h == nil {
+				break
+			}
+			want = append(want, h)
+			if reverse {
+				cur -= int64(skip) + 1
+			} else {
+				cur += int64(skip) + 1
+			}
+		}
+		return enc(want)
 	}
-	m.replyCode, m.reply = aquaHeaders, enc(want)
 	return m
 }
 
@@ -426,6 +445,22 @@ func (e *aquaEnv) integerLimitQueries(r *fw.Rand) []amsg {
 		m.replyCode = aquaHeaders
 		out = append(out, m)
 	}
+	// forced: every combination of origin mode, direction and skip limit
+	for _, byHash := range []bool{false, true} {
+		for _, rev := range []uint64{0, 1} {
+			for _, skip := range []uint64{1<<64 - 1, 1<<64 - 2, 1 << 63, 1<<63 - 1} {
+				on := top / 2
+				o := refrlp.U(on)
+				if byHash {
+					hh := e.blocks[on].Hash()
+					o = refrlp.S(hh[:])
+				}
+				m := mk(aquaGetHeaders, "GetBlockHeaders_integer_limits", "accept", refrlp.Encode(refrlp.L(o, refrlp.U(5), refrlp.U(skip), refrlp.U(rev))))
+				m.replyCode = aquaHeaders
+				out = append(out, m)
+			}
+		}
+	}
 	// malformed integers / arity
 	h := e.blocks[1].Hash()
 	nine := refrlp.S([]byte{1, 0, 0, 0, 0, 0, 0, 0, 0})
@@ -539,9 +574,24 @@ type inMsg struct {
 // accepted request with exactly one message of the reply code, in order, so
 // replies are matched to requests by position, never by content.
 type expectation struct {
-	want []byte // exact payload, when the protocol defines it
-	done bool
-	got  []byte
+	want   []byte // exact payload, when the protocol defines it
+	wantFn func() []byte
+	done   bool
+	got    []byte
+}
+
+// matches: the reply equals the protocol-defined one, evaluated when the
+// request was sent or now (an import may have landed in between).
+func (x *expectation) matches() bool {
+	if x.want == nil || bytes.Equal(x.got, x.want) {
+		return true
+	}
+	if x.wantFn != nil {
+		if now := x.wantFn(); now == nil || bytes.Equal(x.got, now) {
+			return true
+		}
+	}
+	return false
 }
 
 func replyCodeFor(code uint64) uint64 {
@@ -569,6 +619,7 @@ type aquaSession struct {
 	pan       string
 	gotStatus bool
 	owed      map[uint64][]*expectation
+	version   uint
 }
 
 const aquaWatchdog = 120 * time.Second
@@ -580,6 +631,7 @@ func (e *aquaEnv) open(c *fw.Ctx, r *fw.Rand, version int) *aquaSession {
 	var id discover.NodeID
 	copy(id[:], r.Bytes(64))
 	proto := e.pm.SubProtocols[version%len(e.pm.SubProtocols)]
+	s.version = proto.Version
 	go func() {
 		var err error
 		p, msg, st := safely(func() { err = proto.Run(p2p.NewPeer(id, "hostile", nil), net) })
@@ -655,7 +707,7 @@ func (s *aquaSession) incoming(m inMsg) {
 
 // pump processes what the node sends until cond holds; false if the handler
 // ended (or a watchdog fired) first.
-func (s *aquaSession) pump(cond func() bool, write <-chan error) bool {
+func (s *aquaSession) pump(cond func() bool, wake <-chan struct{}) bool {
 	for {
 		if cond() {
 			return true
@@ -670,6 +722,8 @@ func (s *aquaSession) pump(cond func() bool, write <-chan error) bool {
 				continue
 			}
 			s.incoming(im)
+		case <-wake:
+			wake = nil
 		case err := <-s.runErr:
 			s.ended, s.endErr = true, err
 			return cond()
@@ -691,21 +745,24 @@ func (s *aquaSession) send(m *amsg) (*expectation, bool) {
 	}
 	var x *expectation
 	if rc := replyCodeFor(m.Code); rc != 0 {
-		x = &expectation{want: m.reply}
+		x = &expectation{want: m.reply, wantFn: m.replyFn}
+		if m.replyFn != nil {
+			x.want = m.replyFn()
+		}
 		s.owed[rc] = append(s.owed[rc], x)
 	}
-	done := make(chan error, 1)
+	done := make(chan struct{})
 	go func() {
-		done <- s.app.WriteMsg(p2p.Msg{Code: m.Code, Size: m.Size, Payload: m.reader()})
+		s.app.WriteMsg(p2p.Msg{Code: m.Code, Size: m.Size, Payload: m.reader()})
+		close(done)
 	}()
-	written := false
 	ok := s.pump(func() bool {
 		select {
 		case <-done:
-			written = true
+			return true
 		default:
+			return false
 		}
-		return written
 	}, done)
 	if !ok {
 		s.app.Close()
@@ -777,7 +834,7 @@ func (s *aquaSession) deliver(m amsg) (stillAlive bool) {
 		if x != nil {
 			if !x.done {
 				c.Violate("honest_message_rejected", "handleMsg", m.Name+"_no_reply", fmt.Sprintf("%s got no %s reply", m.Name, codeName(replyCodeFor(m.Code))))
-			} else if x.want != nil && !bytes.Equal(x.got, x.want) {
+			} else if !x.matches() {
 				c.Violate("malformed_reply", "handleMsg", m.Name+"_wrong_content", fmt.Sprintf("%s: reply %x, protocol-defined reply %x", m.Name, truncBytes(x.got), truncBytes(x.want)))
 			} else {
 				c.Count("aqua_reply_checked")
@@ -807,7 +864,7 @@ func (e *aquaEnv) enableTxs(c *fw.Ctx, r *fw.Rand) {
 	// then on the node processes transaction messages
 	s := e.open(c, r, 0)
 	defer s.close()
-	if !s.handshake(e.goodStatus(64)) {
+	if !s.handshake(e.goodStatus(s.version)) {
 		return
 	}
 	nb := e.future[0]
@@ -854,7 +911,7 @@ func runAqua(c *fw.Ctx) {
 		return
 	}
 	dense := c.Thorough()
-	rounds := c.Pick(1, 24)
+	rounds := c.Pick(2, 40)
 	sessionNo := 0
 	// runList: sessions of a few messages each; a session ends when the peer is dropped
 	runList := func(label string, r *fw.Rand, msgs []amsg) {
@@ -878,7 +935,7 @@ func runAqua(c *fw.Ctx) {
 			c.Case(id, map[string]interface{}{"messages": batch, "txs_enabled": e.txsOn}, func() {
 				s := e.open(c, r, sessionNo)
 				defer s.close()
-				if !s.handshake(e.goodStatus(uint(64 + sessionNo%2))) {
+				if !s.handshake(e.goodStatus(s.version)) {
 					if s.endErr != nil && (s.endErr == p2p.DiscReadTimeout || isTimeout(s.endErr)) {
 						c.Inconclusive("aqua_handshake_timeout")
 					} else if s.pan == "" {
@@ -928,7 +985,7 @@ func runAqua(c *fw.Ctx) {
 		r := c.Rand("aqua-final")
 		s := e.open(c, r, 0)
 		defer s.close()
-		if s.handshake(e.goodStatus(64)) && s.alive() {
+		if s.handshake(e.goodStatus(s.version)) && s.alive() {
 			c.Count("aqua_node_serving_after_attack")
 		} else if s.pan == "" && !(s.endErr == p2p.DiscReadTimeout) {
 			c.Violate("handler_wedged", "handle", "fresh_peer_after_attack", fmt.Sprintf("a fresh well-behaved peer is not served after the attack: %v", s.endErr))
@@ -941,13 +998,15 @@ func runHostileStatus(c *fw.Ctx, e *aquaEnv, r *fw.Rand, round int) {
 	h := e.head()
 	td := e.chain.GetTd(h.Hash(), h.NumberU64())
 	g := e.blocks[0].Hash()
-	good := e.statusPayload(64, aquaNetworkID, td, h.Hash(), g)
+	const ver = 64 // every hostile-status session runs the first sub-protocol version
+	good := e.statusPayload(ver, aquaNetworkID, td, h.Hash(), g)
 	var list []amsg
-	list = append(list, mk(aquaStatus, "Status_wrong_network", "reject", e.statusPayload(64, 1, td, h.Hash(), g)))
-	list = append(list, mk(aquaStatus, "Status_wrong_genesis", "reject", e.statusPayload(64, aquaNetworkID, td, h.Hash(), common.BytesToHash(r.Bytes(32)))))
+	list = append(list, mk(aquaStatus, "Status_wrong_network", "reject", e.statusPayload(ver, 1, td, h.Hash(), g)))
+	list = append(list, mk(aquaStatus, "Status_wrong_genesis", "reject", e.statusPayload(ver, aquaNetworkID, td, h.Hash(), common.BytesToHash(r.Bytes(32)))))
 	list = append(list, mk(aquaStatus, "Status_wrong_version", "reject", e.statusPayload(1, aquaNetworkID, td, h.Hash(), g)))
-	list = append(list, mk(aquaStatus, "Status_huge_td", "accept", e.statusPayload(64, aquaNetworkID, new(big.Int).Lsh(big.NewInt(1), 8000), h.Hash(), g)))
-	list = append(list, mk(aquaStatus, "Status_zero_td", "accept", e.statusPayload(64, aquaNetworkID, big.NewInt(0), common.Hash{}, g)))
+	list = append(list, mk(aquaStatus, "Status_wrong_version", "reject", e.statusPayload(ver+1, aquaNetworkID, td, h.Hash(), g)))
+	list = append(list, mk(aquaStatus, "Status_huge_td", "accept", e.statusPayload(ver, aquaNetworkID, new(big.Int).Lsh(big.NewInt(1), 8000), h.Hash(), g)))
+	list = append(list, mk(aquaStatus, "Status_zero_td", "accept", e.statusPayload(ver, aquaNetworkID, big.NewInt(0), common.Hash{}, g)))
 	for l := 0; l < len(good); l += 1 + r.Intn(4) {
 		list = append(list, mk(aquaStatus, "Status_truncated", "reject", clone(good[:l])))
 	}
@@ -963,8 +1022,12 @@ func runHostileStatus(c *fw.Ctx, e *aquaEnv, r *fw.Rand, round int) {
 		m := m
 		id := fmt.Sprintf("aqua-status-%d-%d", round, i)
 		c.Case(id, map[string]interface{}{"first_message": m}, func() {
-			s := e.open(c, r, i)
+			s := e.open(c, r, 0)
 			defer s.close()
+			if s.version != ver {
+				c.Inconclusive("aqua_unexpected_protocol_version")
+				return
+			}
 			c.Count("aqua_hostile_status_presented")
 			if !s.handshake(m) {
 				if m.Expect == "accept" && s.pan == "" && s.endErr != p2p.DiscReadTimeout {
